@@ -49,7 +49,7 @@ def cmp_tokens(a, b, tol):
     if worst: return "token %d: %s vs %s (|diff| %.3g, scale %.3g, tol %.1g)" % (worst[1], worst[2], worst[3], worst[0], scale, tol)
     return None
 
-def compare(impl_path, model_path, tol=1e-9, tol_solve=1e-7, skip_labels=(), cond_max=1e6, same=(), unchanged_on_reject=False, twin_tol=None):
+def compare(impl_path, model_path, tol=1e-9, tol_solve=1e-7, skip_labels=(), cond_max=1e6, same=(), unchanged_on_reject=False, twin_tol=None, oracle_skip=()):
     impl, order = parse(impl_path); model, _ = parse(model_path)
     rep = {"cases": len(order), "corr_lines": 0, "oracle_lines": 0, "corr_mismatch": [], "oracle_mismatch": [], "crashed": [], "incomplete": [],
            "discarded_ill_conditioned": 0, "max_cond": 0.0, "residual_lines": 0, "same_checked": 0}
@@ -82,7 +82,7 @@ def compare(impl_path, model_path, tol=1e-9, tol_solve=1e-7, skip_labels=(), con
             else:
                 rep["corr_mismatch"].append({"case": c, "seq": int(seq), "label": label, "why": "missing on the model side"})
             sk = ("s", seq, label)
-            if sk in M:
+            if sk in M and base not in oracle_skip:
                 rep["oracle_lines"] += 1
                 d = cmp_tokens(toks, M[sk], t)
                 if d: rep["oracle_mismatch"].append({"case": c, "seq": int(seq), "label": label, "why": d})
@@ -116,6 +116,16 @@ def compare(impl_path, model_path, tol=1e-9, tol_solve=1e-7, skip_labels=(), con
         for sm in same:
             (cs, a, b, lab) = sm[:4]; perm = sm[4] if len(sm) > 4 else None
             if cs != c: continue
+            if lab == "*":
+                # every observable of call a must be reproduced by call b
+                for k0 in [k for k in I if k != "_done" and k[0] == "o" and k[1] == str(a)]:
+                    rep["same_checked"] += 1
+                    kb0 = ("o", str(b), k0[2])
+                    if kb0 not in I:
+                        rep["oracle_mismatch"].append({"case": c, "seq": int(b), "label": "same:" + k0[2], "why": "observable of call %d missing at call %d" % (a, b)}); continue
+                    d = cmp_tokens(I[k0], I[kb0], twin_tol if twin_tol is not None else tol)
+                    if d: rep["oracle_mismatch"].append({"case": c, "seq": int(b), "label": "same:" + k0[2], "why": "results of call %d and call %d differ: %s" % (a, b, d)})
+                continue
             ka = ("o", str(a), lab); kb = ("o", str(b), lab)
             if ka in I and kb in I:
                 rep["same_checked"] += 1
